@@ -258,7 +258,7 @@ func c04Programs(tier string, emit func(p pxProg)) {
 				for _, k := range idx {
 					b = append(b, c04Alpha[k])
 				}
-				emit(pxProg{Text: lines(warm, strings.Join(b, "\n"), post), Tag: "deps"})
+				emit(pxProg{Text: lines(warm, strings.Join(b, "\n"), post), Tag: fmt.Sprintf("deps-len%d", n)})
 			})
 		}
 		seqs(len(c04Core), core, func(idx []int) {
